@@ -237,7 +237,7 @@ func (r *Report) finish(verifDir, tier string, seed int64, start time.Time, fata
 	}
 	sort.Strings(fns)
 	cov := map[string]any{
-		"explanation":         r.Explain,
+		"explanation":         r.Explain + " — Flow rules are evaluated on the flattened view of each function (unexported helpers spliced in at their static call sites, exported API stays a call) and only over feasible paths (nil-ness and truth decided by earlier branches on the same value); loops and buffers are judged on engine E2's generalised events, not on syntax (DESIGN.md §3).",
 		"obligations":         len(r.Obls),
 		"discharged":          nDis,
 		"undecided":           nUnd,
